@@ -299,9 +299,10 @@ def exOps : List Op :=
    .input (exPush.take 26) true false 12,
    .setMtu 1450, .recv 10, .update 20]
 
-/-- the state reached is not trivial: three segments in flight, one message received, MTU changed -/
+/-- the state reached is not trivial: two segments still in flight (the one acknowledged
+individually has left `snd_buf`: the repaired `shrink_buf`), one message received, MTU changed -/
 example : ((run (Kcp.new 7) exOps).k.snd_buf.length, (run (Kcp.new 7) exOps).k.rcv_nxt,
-           (run (Kcp.new 7) exOps).k.mtu, (run (Kcp.new 7) exOps).panic) = (3, 1#32, 1450#32, false) := by
+           (run (Kcp.new 7) exOps).k.mtu, (run (Kcp.new 7) exOps).panic) = (2, 1#32, 1450#32, false) := by
   decide +kernel
 
 /-- `InvK` is decidable and holds there (by the theorem, and by evaluation) -/
